@@ -342,6 +342,130 @@ theorem jump_back_lands (from_ tramp : BitVec 64) (k n : Nat) (m : X86.Mach)
       { m with rip := tramp + BitVec.ofNat 64 k } = some { m with rip := from_ + BitVec.ofNat 64 n } :=
   C15.amd64_origin_rel _ _ m hrel
 
+/-! ## the relocation theorem -/
+
+/-- what one relocated instruction must satisfy (`F`,`T` = origin / placeholder address as integers, `n` = copied length) -/
+def Image (F T : Int) (n : Nat) (i : Ins) (pos npos : Nat) (o : Reloc.Bytes) : Prop :=
+  (i.pcrelOff = 0 → o = i.bytes) ∧
+  (i.pcrelOff ≠ 0 → ∃ pre' f', o = pre' ++ f' ++ i.tail ∧ Shape i pre' f' ∧
+    ((0 < sdisp i.field ∧ (n : Int) ≤ sdisp i.field + pos + i.len) ∨ (sdisp i.field < 0 ∧ sdisp i.field + pos + i.len < 0) →
+        T + npos + (o.length : Int) + sdisp f' = F + (sdisp i.field + pos + i.len)) ∧
+    (sdisp i.field < 0 → 0 ≤ sdisp i.field + pos + i.len → (npos : Int) + o.length + sdisp f' = sdisp i.field + pos + i.len) ∧
+    (sdisp i.field = 0 ∨ (0 < sdisp i.field ∧ sdisp i.field + pos + i.len < n) → o = i.bytes))
+
+/-- **the full-strength statement**: `out` is, instruction by instruction, a faithful image of `prog[pos .. n)` -/
+def Faithful (F T : Int) (n : Nat) : List Ins → Nat → Nat → Reloc.Bytes → Prop
+  | [], pos, _, out => pos = n ∧ out = []
+  | i :: rest, pos, npos, out =>
+    (pos = n ∧ out = []) ∨
+    (pos < n ∧ ∃ o out', out = o ++ out' ∧ Image F T n i pos npos o ∧ Faithful F T n rest (pos + i.len) (npos + o.length) out')
+
+/-- every PC-relative target stays encodable from the placeholder (true inside one image < 2 GiB) -/
+def Reach (F T : Int) (prog : List Ins) : Prop :=
+  ∀ i ∈ prog, i.pcrelOff ≠ 0 → ∀ g : Int, 0 ≤ g → g ≤ 2^20 →
+    -2^31 + 8 ≤ sdisp i.field + (F - T - g) ∧ sdisp i.field + (F - T - g) < 2^31 ∧ (-2^30 ≤ sdisp i.field - g ∨ 0 ≤ sdisp i.field)
+
+theorem image_len (i : Ins) (hw : WF i) (pre' f' : Reloc.Bytes) (hp : i.pcrelOff ≠ 0) (hs : Shape i pre' f') :
+    i.len ≤ (pre' ++ f' ++ i.tail).length ∧ (pre' ++ f' ++ i.tail).length ≤ i.len + 4 := by
+  have htl := tail_length i hw hp
+  have hpl := pre_length i hw hp
+  simp only [List.length_append]
+  rcases hs with ⟨rfl, hf⟩ | ⟨h1, h2, hx, hf⟩
+  · omega
+  · have hc := opExpand_cases _ _ hx
+    rcases hc with ⟨_, rfl⟩ | ⟨_, rfl⟩ | ⟨_, rfl⟩ | ⟨_, rfl⟩ <;> simp only [List.length_cons, List.length_nil] <;> omega
+
+theorem copied_faithful (from_ tramp : BitVec 64) (n : Nat) (hn : n ≤ 2^18)
+    (hd1 : -2^31 + 2^21 ≤ (from_.toNat : Int) - tramp.toNat) (hd2 : (from_.toNat : Int) - tramp.toNat < 2^31 - 2^21)
+    (prog : List Ins) (hwf : ∀ i ∈ prog, WF i) (hreach : Reach from_.toNat tramp.toNat prog)
+    (pos npos : Nat) (out : Reloc.Bytes) (hg1 : pos ≤ npos) (hg2 : npos ≤ pos + 4 * pos)
+    (h : Copied from_ tramp n prog pos npos out n) :
+    Faithful from_.toNat tramp.toNat n prog pos npos out := by
+  induction prog generalizing pos npos out with
+  | nil => exact h
+  | cons i rest ih =>
+    have hw := hwf i (by simp)
+    have hrest : ∀ j ∈ rest, WF j := fun j hj => hwf j (by simp [hj])
+    have hreach' : Reach from_.toNat tramp.toNat rest := fun j hj => hreach j (by simp [hj])
+    simp only [Copied] at h
+    simp only [Faithful]
+    rcases h with h | ⟨hlt, o, out', rfl, hfix, hcp⟩
+    · exact Or.inl h
+    · refine Or.inr ⟨hlt, o, out', rfl, ?_, ?_⟩
+      · constructor
+        · intro hp0
+          unfold fixIns at hfix
+          simp only [hp0, if_true, Except.ok.injEq] at hfix
+          exact hfix.symm
+        · intro hp
+          obtain ⟨r1, r2, r3⟩ := hreach i (by simp) hp ((npos : Int) - pos) (by omega) (by omega)
+          obtain ⟨pre', f', rfl, hsh, c1, c2, c3⟩ := fixIns_spec i hw hp pos n from_ tramp ((npos : Int) - pos) o (by omega) (by omega)
+            hd1 hd2 r1 r2 r3 hfix
+          refine ⟨pre', f', rfl, hsh, ?_, ?_, c3⟩
+          · intro hc; have := c1 hc; omega
+          · intro ha ht; have := c2 ha ht; omega
+      · have hlen : i.len ≤ o.length ∧ o.length ≤ i.len + 4 := by
+          by_cases hp : i.pcrelOff = 0
+          · unfold fixIns at hfix
+            simp only [hp, if_true, Except.ok.injEq] at hfix
+            rw [← hfix, hw.len_eq]; omega
+          · obtain ⟨r1, r2, r3⟩ := hreach i (by simp) hp ((npos : Int) - pos) (by omega) (by omega)
+            obtain ⟨pre', f', rfl, hsh, _⟩ := fixIns_spec i hw hp pos n from_ tramp ((npos : Int) - pos) o (by omega) (by omega)
+              hd1 hd2 r1 r2 r3 hfix
+            exact image_len i hw pre' f' hp hsh
+        have := hw.len_pos
+        exact ih hrest hreach' _ _ _ (by omega) (by omega) hcp
+
+/-- **reloc_faithful** — the relocation theorem: for every instruction list meeting the decoder contract, every
+    origin/placeholder pair less than 2^31−2^21 apart with encodable targets, a successful `fixRelativeAddr` returns `n`
+    (≥ 13 or the whole function) and bytes that are an instruction-by-instruction faithful image of the first `n` bytes. -/
+theorem reloc_faithful (from_ tramp : BitVec 64) (fs : Int) (tl : Tail) (prog : List Ins) (hwf : ∀ i ∈ prog, WF i)
+    (hd1 : -2^31 + 2^21 ≤ (from_.toNat : Int) - tramp.toNat) (hd2 : (from_.toNat : Int) - tramp.toNat < 2^31 - 2^21)
+    (hreach : Reach from_.toNat tramp.toNat prog) (out : Reloc.Bytes) (n : Nat) (hn : n ≤ 2^18)
+    (h : fixRelativeAddr Cfg.fixed from_ tramp fs 13 tl prog = .ok (out, n)) :
+    Faithful from_.toNat tramp.toNat n prog 0 0 out ∧ ((13 : Int) ≤ n ∨ n = progLen prog) ∧
+    checkJumpBetween n fs tl prog 0 = .ok () := by
+  obtain ⟨hcut, hck, hcp⟩ := fixRelativeAddr_ok from_ tramp fs 13 tl prog hwf out n h
+  refine ⟨copied_faithful from_ tramp n hn hd1 hd2 prog hwf hreach 0 0 out (by omega) (by omega) hcp, ?_, hck⟩
+  rw [hcut]
+  rcases cutPos_least 13 prog 0 with h1 | h1
+  · left; exact h1
+  · right; simpa using h1
+
+/-! ## re-entry (partial: F4) -/
+
+theorem located_mem (prog : List Ins) (pos p : Nat) (i : Ins) (h : (p, i) ∈ located prog pos) : i ∈ prog := by
+  induction prog generalizing pos with
+  | nil => simp [located] at h
+  | cons j rest ih =>
+    simp only [located, List.mem_cons] at h
+    rcases h with h | h
+    · have := (Prod.mk.inj h).2; simp [this]
+    · simp [ih _ h]
+
+/-- an instruction of the rest of the function (outside the copied prefix) branches to the function's own entry -/
+def BranchesToEntryOutside (n : Nat) (prog : List Ins) : Prop :=
+  ∃ p i, (p, i) ∈ located prog 0 ∧ n ≤ p ∧ i.pcrelOff ≠ 0 ∧ sdisp i.field + p + i.len = 0
+
+/-- the full no-re-entry statement: control never comes back from the rest of the function into the overwritten bytes
+    `[0, n)` — **not** implied by a successful relocation (F4: every Go function with a stack check ends in
+    `CALL morestack; JMP entry`; see `C03F.F4_reentry_not_refused`) -/
+def NoReentry (n : Nat) (fs : Int) (prog : List Ins) : Prop :=
+  ∀ p i, (p, i) ∈ located prog 0 → n ≤ p → (p : Int) ≤ fs → i.pcrelOff ≠ 0 →
+    ¬ (0 ≤ sdisp i.field + p + i.len ∧ sdisp i.field + p + i.len < n)
+
+/-- **partial**: no re-entry, under the explicit hypothesis that nothing outside the prefix branches to the entry
+    (for compiled Go: the function has no stack-growth epilogue, or the goroutine has headroom so it is never taken) -/
+theorem no_reentry_partial (n : Nat) (fs : Int) (tl : Tail) (prog : List Ins) (hwf : ∀ i ∈ prog, WF i)
+    (hck : checkJumpBetween n fs tl prog 0 = .ok ()) (hno : ¬ BranchesToEntryOutside n prog) : NoReentry n fs prog := by
+  intro p i hm hn hp hpc ⟨h0, h1⟩
+  obtain ⟨rel, hrel, hnot⟩ := checkJumpBetween_sound n fs tl prog 0 hck p i hm hp hpc
+  rw [decodeRel_wf i (hwf i (located_mem _ _ _ _ hm)) hpc] at hrel
+  simp only [Except.ok.injEq] at hrel
+  subst hrel
+  apply hno
+  exact ⟨p, i, hm, hn, hpc, by omega⟩
+
 /-! ## non-vacuity: the hypotheses are met by realistic instructions and the success branch is reachable -/
 
 /-- `JBE +0x0b` (76 0b) and `CMPB $0, x(RIP)` (80 3d disp32 00) satisfy the decoder contract -/
